@@ -17,7 +17,7 @@ ID = "C07"
 LEAN_MODULES = ["Barril.Props.C07"]
 DRIVERS = ["drv_intern"]
 DRIVER_EXE = "drv_intern"
-RULE = ("seeded histories (quick 300 x 30 steps; thorough: every sequence of length 4 over a pool of 13 "
+RULE = ("seeded histories (quick 300 x 30 steps; thorough: every sequence of length 4 over a pool of 14 "
         "operations + 5000 random x 30) of: ObtainQuantity in every form (str+category, str only, legacy "
         "spelling, list/tuple form, dict/OrderedDict form, default-unit form, captions None/''/text, malformed "
         "requests of every kind, also through the Scalar/Array constructors), CreateEmpty, CreateDerived, "
@@ -47,8 +47,13 @@ UNITS = {"length": ["m", "cm", "km", "ft", "in"], "time": ["s", "min", "h"], "te
 CATS = {"length": ["length", "depth", "diameter"], "time": ["time"], "temperature": ["temperature", "delta temperature"],
         "mass": ["mass"], "volume": ["volume", "liquid volume"], "molar mass": ["molar mass", "amount of substance"],
         "dimensionless": ["dimensionless", "index"]}
-LEGACY = [("1000ft3", "volume"), ("lbmole", "molar mass"), ("gmole", "amount of substance"), ("M(m3)", "volume"),
-          ("Ns/m", "force per velocity")]
+LEGACY3 = [("1000ft3", "volume", "Mcf"), ("1000m3", "volume", "Mm3"), ("M(ft3)", "volume", "MMcf"),
+           ("M(m3)", "volume", "MMm3"), ("k(ft3)", "liquid volume", "Mcf"),
+           ("1000ft3/d", "volume flow rate", "Mcf/d"), ("M(ft3)/d", "volume flow rate", "MMcf/d"),
+           ("1000m3/d", "volume flow rate", "Mm3/d"), ("M(m3)/d", "volume flow rate", "MMm3/d"),
+           ("lbmole", "molar mass", "lbmol"), ("gmole", "amount of substance", "gmol"), ("lbmole/h", "mole per time", "lbmol/h"),
+           ("Ns/m", "force per velocity", "N.s/m")]
+LEGACY = [(l, c) for l, c, _ in LEGACY3]
 BAD_UNITS = ["zzz", "1000ft3xyz", ""]
 BAD_CAT = "no such category"
 CAPS = [None, None, None, "", "cap", "other"]
@@ -67,7 +72,7 @@ def _item(rng, bad=0.06):
     e = rng.choice([1, 1, 2, -1, -2, 3, 0])
     r = rng.random()
     if r < bad:
-        u = rng.choice(["zz", "s", "lbmole"])
+        u = rng.choice(["zz", "s", "lbmole", "gmole", "1000ft3", "M(m3)"])
     elif r < 2 * bad:
         c = BAD_CAT
     return [c, u, e, rng.random() < 0.4]
@@ -94,12 +99,14 @@ def gen_request(rng):
             u = rng.choice(UNITS[rng.choice(QTS)] + BAD_UNITS)
         elif r < 0.12:
             c = BAD_CAT
-        elif r < 0.20:
-            u, c = rng.choice(LEGACY)
+        elif r < 0.24:
+            l, c, cur = rng.choice(LEGACY3)
+            u = l if rng.random() < 0.6 else cur
         via = rng.choice(["obtain", "obtain", "scalar", "array"]) if cap is None else "obtain"
         return dict(k="obtain", u=["s", u], c=["s", c], cap=cap, via=via)
     if f < 0.45:      # str only: default category, legacy, unknown
-        u = rng.choice(UNITS[rng.choice(QTS)] + [l for l, _ in LEGACY] + BAD_UNITS[:2])
+        u = rng.choice(UNITS[rng.choice(QTS)] + [l for l, _ in LEGACY] + [cur for _, _, cur in LEGACY3[-4:]]
+                       + BAD_UNITS[:2])
         via = rng.choice(["obtain", "obtain", "scalar", "array"]) if cap is None else "obtain"
         return dict(k="obtain", u=["s", u], c=None, cap=cap, via=via)
     if f < 0.52:      # unknown quantity with captions
@@ -235,6 +242,15 @@ def gen_history(rng, n):
             t = permuted_twin(rng, o)
             if t is not None:
                 ops.append(t)
+        # the other spelling of a legacy/current unit (same category and caption), then a sum across the two
+        if len(ops) + 1 < n and o["k"] == "obtain" and o["u"] is not None and o["u"][0] == "s" and rng.random() < 0.6:
+            other = [cur for l, _, cur in LEGACY3 if l == o["u"][1]] + [l for l, _, cur in LEGACY3 if cur == o["u"][1]]
+            if other:
+                t = dict(o)
+                t["u"] = ["s", rng.choice(other)]
+                t["via"] = "obtain" if o["cap"] is not None else rng.choice(["obtain", "scalar"])
+                ops.append(t)
+                ops.append(dict(k="same", a=idx, b=idx + 1, x=0, lvl=rng.choice(["q", "s"]), sy=rng.choice("+-")))
         # arithmetic that gets a quantity created from the tuple/list/dict forms back from the cache
         if (len(ops) < n and o["k"] == "obtain" and o["u"] is not None and o["u"][0] in ("l", "d")
                 and rng.random() < 0.5):
@@ -243,7 +259,7 @@ def gen_history(rng, n):
 
 
 def exhaustive_pool():
-    """13 operations; references are relative (resolved when the history is laid out)"""
+    """14 operations; references are relative (resolved when the history is laid out)"""
     od = lambda items: ["d", items, True]
     return [
         dict(k="obtain", u=["s", "m"], c=["s", "length"], cap=None, via="obtain"),
@@ -260,6 +276,7 @@ def exhaustive_pool():
         dict(k="same", a=-1, b="e", x=0, lvl="anp", sy="+"),
         dict(k="pickle", q=-1, proto=2),
         dict(k="derived", items=[["time", "s", -1, False], ["length", "m", 2, False]], cap=None),   # pool[4] permuted
+        dict(k="obtain", u=["s", "lbmol"], c=["s", "molar mass"], cap=None, via="obtain"),          # pool[3] respelled
     ]
 
 
@@ -798,6 +815,13 @@ class Run:
                              b=repr(p), a_map=cells, b_map=_cells(p), equal=e1)
                 if e1 and hash(q) != hash(p):
                     self.bad(step, "equal quantities have equal hashes", a=repr(q), b=repr(p))
+                if (not q.IsDerived() and not p.IsDerived()
+                        and (q.GetCategory(), q.GetUnit(), q.GetUnknownCaption() or "")
+                        == (p.GetCategory(), p.GetUnit(), p.GetUnknownCaption() or "")
+                        and not (e1 and e2 and hash(q) == hash(p) and len({q, p}) == 1)):
+                    self.bad(step, "requests that resolve to the same category, unit and caption return equal quantities "
+                                   "with equal hashes", a=repr(q), b=repr(p), a_map=cells, b_map=_cells(p), equal=e1,
+                             same_hash=hash(q) == hash(p))
                 if e1:
                     eqs.append(j)
                 if same_map and all(c[:3] == d[:3] for c, d in zip(cells, _cells(p))):
@@ -816,6 +840,14 @@ class Run:
                       and q.GetCategoryInfo() is db.GetCategoryInfo(cells[0][0]))
             if q.GetUnitDatabase() is not db:
                 ok = False
+            # every accessor of one quantity shows the same units: getters, composing map, pickled state
+            state = q.__reduce__()[1][0]
+            st_cells = [(c, ue[0], ue[1]) for c, ue in state[:-1]]
+            if not ok or st_cells != [c[:3] for c in cells] or (state[-1] or "") != (q.GetUnknownCaption() or ""):
+                self.bad(step, "all accessors of one quantity show the same category, unit and caption", quantity=repr(q),
+                         GetUnit=q.GetUnit(), GetComposingUnits=repr(q.GetComposingUnits()),
+                         GetCategory=q.GetCategory(), composing_map=[list(c) for c in cells],
+                         reduce_state=repr(state)[:200])
             nq.append(dict(c=[[_s(c), _s(u), e, fz] for c, u, e, fz in cells], cap=_s(q.GetUnknownCaption() or ""),
                            d=bool(q.IsDerived()), j=[[_s(u), e] for u, e in q.GetComposingUnitsJoiningExponents()],
                            eq=eqs, hq=hqs, getters=ok))
@@ -931,6 +963,11 @@ def setup(ctx):
         for u in UNITS[qt]:
             if db.GetQuantityType(u) != qt:
                 raise Infra("C07 generator pool: unit %r is not a unit of %r any more" % (u, qt))
+    for l, c, cur in LEGACY3:
+        if c not in db.categories_to_quantity_types or db.GetQuantityType(cur) != db.categories_to_quantity_types[c].quantity_type:
+            raise Infra("C07 generator pool: %r is not a unit of category %r any more" % (cur, c))
+        if db.GetQuantityType(l) is not None:
+            raise Infra("C07 generator pool: legacy spelling %r is a registered unit now" % (l,))
     ctx.reuse_checked = 0
 
 
